@@ -16,46 +16,46 @@ TEXT = {
                 'empty roots); the roots and leaf count after every step of every enumerated behaviour are computed by the '
                 'history-independent reference semantics (spec/Forest.tla) and compared with Stump, Pollard and full/partial '
                 'MapPollard for every TotalRows of the tier. The quantifier over histories and configurations is enumerated '
-                'by the model checker, the oracle shares no code with /repo.',
+                'by the model checker, the oracle shares no code with /repo. TLC also checks two independent algorithmic models against the reference semantics: an incremental root list (spec/StumpAlg.tla) and the swapless move-up position map (spec/MapForestAlg.tla); the behaviours of the partial-forest machine (spec/Partial.tla) are judged for roots and leaf count too. In addition long random histories (up to 64 leaves, 40 blocks, undo/redo) are recorded from the real code by a driver that knows no expected value and are validated by TLC against the stateful trace specification spec/CoreTrace.tla (R->T).',
         'design_ref': 'DESIGN.md section 5 (C01)',
         'note': COMMON_NOTE,
-        'technique': 'TLA+ spec + TLC BFS generation, behaviours replayed on the code (G->R); driver traces validated by TLC (R->T)',
+        'technique': 'TLA+ spec + TLC BFS generation, behaviours replayed on the code (G->R); spec-level refinement checks (StumpAlg, MapForestAlg); driver traces validated by TLC (R->T)',
     },
     'C02': {
         'text': 'Bounded exhaustive model checking: in every reachable state of spec/Core.tla, for every non-empty subset of '
                 'live leaves and the request orders of the tier, TLC emits the canonical proof (targets in request order, '
                 'proof hashes by row then position) and the set of trees; Pollard.Prove and MapPollard.Prove (full, and '
                 'partial on cached sets) must return exactly that, and Verify / Pollard.Verify / MapPollard.Verify of every '
-                'instance must accept it with exactly those root indexes.',
+                'instance must accept it with exactly those root indexes. Histories with a recorded query before an undo and with every (undone block, next block) pair are generated as well; TLC checks completeness and minimality of canonical proofs on the verifier model (spec/VerifierFun.tla). In addition long random histories (up to 64 leaves, 40 blocks, undo/redo) are recorded from the real code by a driver that knows no expected value and are validated by TLC against the stateful trace specification spec/CoreTrace.tla (R->T).',
         'design_ref': 'DESIGN.md section 5 (C02)',
         'note': COMMON_NOTE,
-        'technique': 'TLA+ spec + TLC BFS generation of Prove(S, order) in every state, replayed on the code (G->R)',
+        'technique': 'TLA+ spec + TLC BFS generation of Prove(S, order) in every state, replayed on the code (G->R); verifier model theorems; driver proofs validated by TLC (R->T)',
     },
     'C06': {
         'text': 'Bounded exhaustive model checking with the undo stack in the specification state: every block of every '
                 'reachable state is applied and undone, to depth 1..3, and every continuation (redo on any branch) is '
                 'explored; after each undo the complete observation vector of Pollard and full/partial MapPollard (all '
-                'TotalRows of the tier) is compared with the expectation of the earlier abstract state.',
+                'TotalRows of the tier) is compared with the expectation of the earlier abstract state. Every (undone block, next block) pair is continued (TrackUndone), and a wide configuration starts from every sparse state with up to 16 leaves (thorough). In addition long random histories (up to 64 leaves, 40 blocks, undo/redo) are recorded from the real code by a driver that knows no expected value and are validated by TLC against the stateful trace specification spec/CoreTrace.tla (R->T).',
         'design_ref': 'DESIGN.md section 5 (C06)',
         'note': COMMON_NOTE,
-        'technique': 'TLA+ spec with undo stack + TLC BFS, undo/redo behaviours replayed on the code (G->R)',
+        'technique': 'TLA+ spec with undo stack + TLC BFS, undo/redo behaviours replayed on the code (G->R); driver traces with undo validated by TLC (R->T)',
     },
     'C10': {
         'text': 'Bounded exhaustive model checking: in the final state of every enumerated behaviour (blocks, undo, '
                 'serialization round trip) every leaf hash ever added, every internal node hash, fresh hashes and every '
                 'position up to 2^(rows+1)+4 are looked up on Pollard and full/partial MapPollard and compared with '
-                'Nodes/PosOf of the reference semantics; tracked-leaf counters must equal |live|.',
+                'Nodes/PosOf of the reference semantics; tracked-leaf counters must equal |live|. TLC checks the position-map algorithm (spec/MapForestAlg.tla) against the reference placement. In addition long random histories (up to 64 leaves, 40 blocks, undo/redo) are recorded from the real code by a driver that knows no expected value and are validated by TLC against the stateful trace specification spec/CoreTrace.tla (R->T).',
         'design_ref': 'DESIGN.md section 5 (C10)',
         'note': COMMON_NOTE + ' Known finding C10-F1 (MapPollard.GetHash aliasing outside the forest) is reported as KNOWN-FINDING, not as a violation.',
-        'technique': 'TLA+ spec + TLC BFS generation, complete look-up tables compared on the code (G->R)',
+        'technique': 'TLA+ spec + TLC BFS generation, complete look-up tables compared on the code (G->R); MapForestAlg refinement; driver positions validated by TLC (R->T)',
     },
     'C11': {
         'text': 'Bounded exhaustive model checking: every block transition of spec/Core.tla carries the reference update data '
                 '(UpdateDataRef in spec/Forest.tla, defined from the pre- and post-block forests, not from the algorithm); '
-                'the UpdateData returned by Stump.Update is compared field by field as exact sequences.',
+                'the UpdateData returned by Stump.Update is compared field by field as exact sequences. TLC checks the incremental algorithm (spec/StumpAlg.tla) against UpdateDataRef. In addition long random histories (up to 64 leaves, 40 blocks, undo/redo) are recorded from the real code by a driver that knows no expected value and are validated by TLC against the stateful trace specification spec/CoreTrace.tla (R->T).',
         'design_ref': 'DESIGN.md section 5 (C11)',
         'note': COMMON_NOTE,
-        'technique': 'TLA+ spec + TLC BFS generation, Stump.Update result compared with UpdateDataRef (G->R)',
+        'technique': 'TLA+ spec + TLC BFS generation, Stump.Update result compared with UpdateDataRef (G->R); StumpAlg refinement; driver update data validated by TLC (R->T)',
     },
     'C17': {
         'text': 'Frame condition checked on every library call of every replayed behaviour: arguments are passed in buffers '
@@ -71,25 +71,25 @@ TEXT = {
                 'every remember subset from every reachable (n, live, held); the real Stump.Update -> Proof.Update pipeline '
                 'must leave the client holding exactly held\' with true positions and the canonical proof, which must verify '
                 'and equal a full prover\'s proof. TLC additionally proves on the specification that block data is '
-                'sufficient (theorem Sufficient).',
+                'sufficient (theorem Sufficient). A light client also follows every history of the random driver (Proof.Update with random remember choices) and TLC checks on the recorded trace that it holds exactly what it must with the canonical proof (spec/CoreTrace.tla, R->T).',
         'design_ref': 'DESIGN.md section 5 (C07)',
         'note': COMMON_NOTE,
-        'technique': 'TLA+ spec + TLC BFS over (n, live, held), Stump.Update/Proof.Update pipeline replayed (G->R); spec-level sufficiency theorem',
+        'technique': 'TLA+ spec + TLC BFS over (n, live, held), Stump.Update/Proof.Update pipeline replayed (G->R); spec-level sufficiency theorem; driver light client validated by TLC (R->T)',
     },
     'C08': {
         'text': 'Bounded exhaustive model checking with the undo stack in the specification state: every block is undone with '
                 'Proof.Undo to depth 1..3 and every redo continuation explored; after each undo the held pairs and the proof '
-                'must be the canonical ones of held \\ added in the pre-block forest and verify against the previous stump.',
+                'must be the canonical ones of held \\ added in the pre-block forest and verify against the previous stump. The same undo is also run with 65536 more additions in the undone block (the expectation does not depend on the number of additions), and the random driver\'s light client undoes blocks and is validated by TLC (spec/CoreTrace.tla, R->T).',
         'design_ref': 'DESIGN.md section 5 (C08)',
         'note': COMMON_NOTE + ' Known finding C08-F1 (leaves lost when the undone block overwrote an empty root) is reported as KNOWN-FINDING.',
-        'technique': 'TLA+ spec with undo stack + TLC BFS, Proof.Undo behaviours replayed (G->R)',
+        'technique': 'TLA+ spec with undo stack + TLC BFS, Proof.Undo behaviours replayed (G->R); driver light client validated by TLC (R->T)',
     },
     'C14': {
         'text': 'Bounded exhaustive model checking of the stateless proof operations (spec/ProofOps.tla): for every abstract '
                 'state within the bound and all argument combinations, the results of AddProof, GetProofSubset (incl. its '
                 'error case), GetMissingPositions and MapPollard.GetMissingPositions + VerifyPartialProof are compared with '
                 'canonical proofs / position sets derived from the reference semantics; TLC proves UnionSufficient and '
-                'MissingExact on the specification.',
+                'MissingExact on the specification. Partial forests are asked for their missing positions in every reachable (n, live, cached) (spec/Partial.tla MissQ: exact given the dumped stored set), and wide stages cover every state with 8..10 leaves for small request sets.',
         'design_ref': 'DESIGN.md section 5 (C14)',
         'note': COMMON_NOTE,
         'technique': 'TLA+ spec + TLC enumeration of all (state, arguments), results compared on the code (G->R); spec-level theorems',
@@ -99,10 +99,10 @@ TEXT = {
                 'of Modify, Verify(remember), Ingest, Prune, Undo and from-roots restarts within the bounds; after each '
                 'behaviour the real instance\'s leaf index and stored node map are dumped and judged against the '
                 'specification\'s relation (exact leaf index, true hashes, lower/upper bound on the stored set, canonical '
-                'proofs). TLC proves on the specification that the lower bound suffices to prove every cached subset.',
+                'proofs). TLC proves on the specification that the lower bound suffices to prove every cached subset. Every state has one witness history per kind of last action (TrackLast). Four partial forests follow every history of the random driver (two prune, ingest and verify between blocks) and their dumps are validated by TLC against the same relation (spec/CoreTrace.tla StoredOK, R->T).',
         'design_ref': 'DESIGN.md section 5 (C09)',
         'note': COMMON_NOTE,
-        'technique': 'TLA+ spec + TLC BFS over interleavings, Nodes/CachedLeaves dumps judged against the spec relation (G->R)',
+        'technique': 'TLA+ spec + TLC BFS over interleavings, Nodes/CachedLeaves dumps judged against the spec relation (G->R) and validated by TLC on driver traces (R->T)',
     },
     'C03': {
         'text': 'Bounded exhaustive soundness check: for every abstract state within the bound the complete product of the '
@@ -110,10 +110,10 @@ TEXT = {
                 'trees, duplicated and nested targets, non-existent positions, altered/dropped/inserted proof hashes, zero '
                 'proof hashes) is given to all six verifier entry points; an acceptance is a behaviour of the '
                 'specification only if ClaimsTrue holds. Judged by the harness on the specification\'s node table and '
-                'cross-validated by TLC on the recorded acceptance trace.',
+                'cross-validated by TLC on the recorded acceptance trace. The verification algorithm is modelled as a TLA+ function (spec/VerifierFun.tla): TLC checks accept => ClaimsTrue over the same domain and refutes four variants that re-introduce repaired defects. Entry points also include instances reached through a block+verify+undo detour, remembering verifiers and a map forest allocated one row too many; on large forests (driver) honest proofs are mutated in structured ways and every acceptance is judged by TLC (spec/CoreTrace.tla).',
         'design_ref': 'DESIGN.md section 5 (C03)',
         'note': COMMON_NOTE,
-        'technique': 'TLA+ spec defines states + input domain; native product against the real verifiers; acceptances trace-validated by TLC (R->T)',
+        'technique': 'TLA+ verifier model checked by TLC (soundness + negative demonstrations); enumerated product against the real verifiers with acceptances trace-validated by TLC (R->T); structured mutation of honest proofs on driver histories (R->T)',
     },
     'C04': {
         'text': 'Structured enumeration of malformed inputs per abstract state (domain from spec/Adversary.tla extended with '
@@ -129,7 +129,7 @@ TEXT = {
         'text': 'Bounded exhaustive model checking over blocks x encodings: the abstract effect of a block in spec/Core.tla '
                 'does not depend on the encoding of its proof, so every encoding the real Verify accepts (permuted, padded, '
                 'assembled by AddProof, cut by GetProofSubset) must drive Stump, Pollard and full/partial MapPollard (all '
-                'TotalRows of the tier) to the same reference roots.',
+                'TotalRows of the tier) to the same reference roots. TLC checks on spec/VerifierFun.tla that the deletion walk of an accepted proof yields Roots(n, live \\ D); encodings are also tried from states reached through an undo (every undone block) or a serialization round trip.',
         'design_ref': 'DESIGN.md section 5 (C05)',
         'note': COMMON_NOTE,
         'technique': 'TLA+ spec + TLC BFS over (state, block, encoding), conditional replay on the code (G->R)',
